@@ -19,6 +19,11 @@ import json
 import math
 import os
 import re
+import signal
+import socket
+import subprocess
+import threading
+import time
 from collections import Counter
 
 from .. import core
@@ -115,6 +120,145 @@ def _replay_validate(run, scen_path, name, with_asis=True):
     return res
 
 
+# ---------------------------------------------------------------- end-to-end segments (wiring of the programs)
+
+def _validate_e2e(run, trace, n_events, name):
+    rej, r = core.validate("trace/Trace_Trajectory", trace, n_events=n_events, timeout=3000, xmx="3g")
+    why = {}
+    for line in r.out.splitlines():
+        m = re.match(r'<<"REJECT", (\d+), "([a-z_]*)">>', line)
+        if m:
+            why[int(m.group(1))] = m.group(2)
+    selfcheck = [int(x) for x in re.findall(r'<<"SELFCHECK", (\d+)>>', r.out)]
+    return {"trace": trace, "why": why, "selfcheck": selfcheck, "mismatch": [], "mismatch_asis": None,
+            "states": r.distinct, "generated": r.generated, "segment": name}
+
+
+def _d1090_segment(run, scen_path, name="d1090"):
+    """decode1090 end to end (harness mode d1090 runs the program; one run per receiver reference)."""
+    exe = core.build_decode1090()
+    trace = os.path.join(run.work, name + ".trace.ndjson")
+    tmp = os.path.join(run.work, name + "_tmp")
+    os.makedirs(tmp, exist_ok=True)
+    t0 = time.time()
+    p = core.run_rs("c06", ["d1090", exe, scen_path, trace, tmp], timeout=3000, check=False)
+    if p.returncode != 0:
+        raise core.ToolError("decode1090 segment: " + (p.stdout or "")[-1500:])
+    stats = json.loads(p.stdout.strip().splitlines()[-1])
+    res = _validate_e2e(run, trace, stats["events"], "decode1090")
+    res.update({"scen": scen_path, "stats": stats, "wall_s": round(time.time() - t0, 1)})
+    return res
+
+
+JET_WINDOW_MS = 150
+
+
+def _jet_one(exe, fr, workdir):
+    """One stationary two-receiver scenario against the real jet1090 over loopback Beast TCP.
+    Returns {"id", "recs": [...]} or {"error": ...} (environment trouble: never a verdict)."""
+    from .. import pipeline
+    os.makedirs(workdir, exist_ok=True)
+    home, env = pipeline.prepare_home(workdir)
+    rxs = [pipeline.Receiver() for _ in fr["refs"]]
+    cmd = [exe, "--verbose", "--serve-port", str(pipeline.free_port()), "--deduplication", str(JET_WINDOW_MS)]
+    cmd += [f"tcp://127.0.0.1:{r.port}@{ref['s']}" for r, ref in zip(rxs, fr["refs"])]
+    errf = open(os.path.join(workdir, "stderr.txt"), "wb")
+    proc = subprocess.Popen(cmd, stdin=subprocess.DEVNULL, stdout=subprocess.PIPE, stderr=errf, env=env, cwd=home)
+    lines, lock = [], threading.Lock()
+
+    def reader():
+        for raw in proc.stdout:
+            with lock:
+                lines.append(raw)
+
+    threading.Thread(target=reader, daemon=True).start()
+    try:
+        for r in rxs:
+            t_acc = time.monotonic() + 25
+            while r.conn is None:
+                try:
+                    r.accept(0.5)
+                except (socket.timeout, OSError):
+                    if proc.poll() is not None or time.monotonic() > t_acc:
+                        return {"error": "jet1090 did not connect to the loopback servers"}
+        pause = (JET_WINDOW_MS + 150) / 1e3
+        for i, f in enumerate(fr["frames"], start=1):
+            if i in fr["pause_before"]:
+                time.sleep(pause)
+            rxs[f["rx"]].write(pipeline.wire_of(bytes.fromhex(f["beast"])), "whole", False)
+            time.sleep(0.004)
+        time.sleep(pause)
+        n, quiet, t_end = -1, 0, time.monotonic() + 6
+        while time.monotonic() < t_end and quiet < 3:
+            time.sleep(0.1)
+            with lock:
+                m = len(lines)
+            quiet = quiet + 1 if m == n else 0
+            n = m
+        recs = []
+        with lock:
+            got = list(lines)
+        for raw in got:
+            try:
+                o = json.loads(raw.decode("utf-8", "replace"))
+            except ValueError:
+                continue
+            if isinstance(o, dict) and isinstance(o.get("frame"), str):
+                rec = {"frame": o["frame"], "timestamp": float(o.get("timestamp", 0.0))}
+                for k in ("latitude", "longitude"):
+                    if isinstance(o.get(k), (int, float)):
+                        rec[k] = float(o[k])
+                recs.append(rec)
+        return {"id": fr["id"], "recs": recs, "died": proc.poll() is not None}
+    finally:
+        try:
+            proc.send_signal(signal.SIGTERM)
+            proc.wait(timeout=3)
+        except Exception:
+            proc.kill()
+        for r in rxs:
+            r.close()
+        errf.close()
+
+
+def _jet_segment(run, n, scen_path=None, name="jet"):
+    """jet1090 end to end; any environment problem skips the segment with a note."""
+    t0 = time.time()
+    try:
+        s = socket.socket()
+        s.bind(("127.0.0.1", 0))
+        s.close()
+    except OSError as e:
+        return {"skipped": f"no loopback sockets: {e}"}
+    exe = core.build_jet()
+    if scen_path is None:
+        scen_path, _, _ = _gen(run, "e2e", name + "gen", {"GEN_FROM": 1, "GEN_TO": n})
+    frames_path = os.path.join(run.work, name + ".frames.ndjson")
+    core.run_rs("c06", ["frames", scen_path, frames_path])
+    frs = core.read_ndjson(frames_path)
+    bad = [f["id"] for f in frs if not all(r["ok"] for r in f["refs"])]
+    frs = [f for f in frs if f["id"] not in bad]
+    try:
+        with cf.ThreadPoolExecutor(max_workers=2) as ex:
+            outs = list(ex.map(lambda f: _jet_one(exe, f, os.path.join(run.work, f"{name}-{f['id']}")), frs))
+    except (OSError, core.ToolError) as e:
+        return {"skipped": f"loopback run failed: {e}"}
+    errors = [o["error"] for o in outs if "error" in o]
+    recs = [o for o in outs if "error" not in o]
+    if not recs:
+        return {"skipped": "jet1090 could not be driven over loopback: " + "; ".join(errors[:2])}
+    rec_path = os.path.join(run.work, name + ".records.ndjson")
+    core.write_ndjson(rec_path, recs)
+    trace = os.path.join(run.work, name + ".trace.ndjson")
+    p = core.run_rs("c06", ["records", scen_path, rec_path, trace])
+    stats = json.loads(p.stdout.strip().splitlines()[-1])
+    res = _validate_e2e(run, trace, stats["events"], "jet1090")
+    stats.update({"scenarios_skipped_reference_string_ambiguous": len(bad), "scenarios_not_run": len(errors),
+                  "frames_sent": sum(len(f["frames"]) for f in frs), "jet1090_died": sum(1 for o in recs if o.get("died"))})
+    res.update({"scen": scen_path, "stats": stats, "wall_s": round(time.time() - t0, 1)})
+    return res
+
+
 def _fetch(trace, indices):
     """The scenarios (header + report events) that contain the given 1-based event indices."""
     want = sorted(indices)
@@ -205,14 +349,26 @@ def _judge(run, results):
         if not res["why"]:
             continue
         found = _fetch(res["trace"], set(res["why"]))
-        ids = {(evs[0]["fam"], evs[0]["sc"]) for evs, _ in found.values()}
+        seg = res.get("segment")
+
+        def base(fam):           # "d1090:<fam>" / "jet:<fam>" -> the family of the generated scenario
+            return fam.split(":", 1)[1] if seg and fam.split(":", 1)[0] in ("d1090", "jet") else fam
+
+        ids = {(base(evs[0]["fam"]), evs[0]["sc"]) for evs, _ in found.values()}
         lines = _scenario_lines(res["scen"], ids)
         for start, (evs, hits) in sorted(found.items()):
             n_rej += 1
             pos = hits[0]
             why = res["why"][start + pos]
-            run.report(_signature(evs, pos, why),
-                       _replay_obj(evs, pos, why, lines.get((evs[0]["fam"], evs[0]["sc"]))))
+            sig = _signature(evs, pos, why)
+            rep = _replay_obj(evs, pos, why, lines.get((base(evs[0]["fam"]), evs[0]["sc"])))
+            if seg:
+                sig["segment"] = seg
+                rep["segment"] = seg
+                rep["explain"] = (f"end to end through the {seg} program (its own wiring of decode_position: address, "
+                                  "timestamp, receiver reference); a position attached to a record must be within "
+                                  "25 m of the true position of that report")
+            run.report(sig, rep)
     return n_rej
 
 
@@ -294,11 +450,31 @@ def check(run):
     del hists
 
     # ---- phase 3: replay through the real code + V ------------------------------------------------
+    # scenarios that also go through the decode1090 program: attacks and the first abstract histories of
+    # every shard, every NL-transition scenario, the first random 2-D scenarios
+    take = {"h": 20000 if thorough else 1500, "n": 10 ** 9, "r": 150 if thorough else 12}
+    d_path = os.path.join(run.work, "d1090.scen.ndjson")
+    with open(d_path, "w") as out:
+        for path, n, r in gens:
+            with open(path) as f:
+                for i, line in enumerate(f):
+                    if i >= take[os.path.basename(path)[0]]:
+                        break
+                    out.write(line)
     with cf.ThreadPoolExecutor(max_workers=8 if thorough else 4) as ex:
+        f_jet = ex.submit(_jet_segment, run, 12 if thorough else 2)
+        f_d = ex.submit(_d1090_segment, run, d_path)
         futs = [ex.submit(_replay_validate, run, path, os.path.basename(path).split(".")[0])
                 for path, n, r in gens if n > 0]
         results = [f.result() for f in futs]
+        d_res = f_d.result()
+        jet_res = f_jet.result()
     n_rej = _judge(run, results)
+    e2e = [d_res] + ([jet_res] if "skipped" not in jet_res else [])
+    n_rej_e2e = _judge(run, e2e)
+    for r in e2e:
+        run.tlc_states += r["states"]
+        run.tlc_transitions += r["generated"]
 
     tot = Counter()
     nontrivial = set()
@@ -340,6 +516,17 @@ def check(run):
         "random_2d_scenarios": n_rand,
         "nl_transition_first_fix_scenarios": n_nl,
         "rejected_scenarios": n_rej,
+        "decode1090": dict({k: v for k, v in d_res["stats"].items()}, wall_s=d_res["wall_s"],
+                           rejected_scenarios=len(d_res["why"]),
+                           note="reports written as decode1090's JSONL input, one run of the program per receiver "
+                                "reference, --deduplication 0; airborne altitudes >= 1000 ft so that its update_reference "
+                                "callback never moves the reference; only the never-wrong clause is judged"),
+        "jet1090_e2e": (jet_res if "skipped" in jet_res else
+                        dict(jet_res["stats"], wall_s=jet_res["wall_s"], rejected_scenarios=len(jet_res["why"]),
+                             note="real binary over loopback Beast TCP, two sources with references 78 NM apart; all "
+                                  "aircraft stationary (wall-clock timestamps cannot cause a false alarm); records "
+                                  "matched to reports by frame")),
+        "rejected_scenarios_end_to_end": n_rej_e2e,
         "model_checking": mc_cov,
         "attacks": attack_cov,
         "design_conformance": {
@@ -384,6 +571,21 @@ def replay(run, path):
     core.build_rs("c06")
     sp = os.path.join(run.work, "replay.scen.ndjson")
     core.write_ndjson(sp, scen)
+    seg = rep.get("signature", {}).get("segment")
+    if seg in ("decode1090", "jet1090"):
+        res = _d1090_segment(run, sp, "replay") if seg == "decode1090" else _jet_segment(run, 0, sp, "replay")
+        if "skipped" in res:
+            raise core.ToolError("jet1090 segment cannot run here: " + res["skipped"])
+        for evs, _ in _fetch(res["trace"], set(range(1, res["stats"]["events"] + 1))).values():
+            for e in evs[1:]:
+                print("replayed:", json.dumps({k: e[k] for k in ("ac", "ts", "kind", "par", "inter")}))
+        _judge(run, [res])
+        run.tlc_states += res["states"]
+        run.tlc_transitions += res["generated"]
+        run.cov.update({"traces_validated_against_impl": res["stats"]["scenarios"], "evaluations": res["stats"]["events"],
+                        "distinct_nontrivial": max(2, res["stats"]["scenarios"]), "samples": scen[:1],
+                        "rule": f"replay of recorded failing scenarios through {seg}"})
+        return run.finish()
     res = _replay_validate(run, sp, "replay")
     for evs, _ in _fetch(res["trace"], set(range(1, res["stats"]["events"] + 1))).values():
         for e in evs[1:]:
